@@ -8,6 +8,15 @@ TRUSTED_BASE = [
 ]
 
 PROPS = {
+    "C03": {
+        "props": "Props/C03.v",
+        "models": ["Model/Pipeline.v", "Model/Dispatch.v", "Model/PipeCheck.v"],
+        "harness": "h_pipe",
+        "results": ["R"],
+        "text": "Coq theorems in two layers. (1) The doubly linked context list exactly as pipeline.go builds it (separate next/prev assignments, arena of nodes) refines the handler-list specification for EVERY sequence of AddFirst/AddLast/AddHandler: forward walk, backward walk, size, IndexOf/LastIndexOf/ContextAt all agree with the list from both ends; illegal positions panic without effect. (2) Routing over that list for every handler table: inbound/event/outbound/exception traces are exactly the capable handlers up to the first non-forwarding one, outbound reaching the head is written to the channel, an exception forwarded past the last handler closes the channel once, ctx.Write/Trigger only reach contexts before/after their position, each handler at most once. Correspondence: real pipelines built by generated op sequences over 63 handler types (every interface subset), structure observed from both ends, routing traces of every entry point compared with the model.",
+        "note": "Layer 2 is stated over the list abstraction that layer 1 proves the linked structure refines; the link between the two layers for the Handle* loops (next-pointer walk = list successor) is argued by c03_links and validated by the correspondence, not a separate theorem. Trusted: Coq kernel + vm_compute, harness, Go interface-dispatch semantics as modelled (capability = interface implemented).",
+        "assumes": ["handlers behave as one of the modelled behaviours per event kind (forward / stop / write-back / trigger / close / panic)"],
+    },
     "C04": {
         "props": "Props/C04.v",
         "models": ["Model/Frame.v", "Model/FrameCheck.v"],
